@@ -12,7 +12,7 @@ usage: automutate.py <repo-copy> <out.jsonl> [--files a.rs,b.rs] [--limit N] [--
 import json, os, re, subprocess, sys, time
 
 VERIF = os.path.dirname(os.path.dirname(os.path.abspath(__file__)))
-ORDER = ["C03", "C16", "C04", "C09", "C10", "C14", "C01", "C08", "C15", "C11", "C05", "C06", "C07", "C12", "C13", "C02"]
+ORDER = os.environ.get("ORDER", "").split() or ["C03", "C16", "C04", "C09", "C10", "C14", "C01", "C08", "C15", "C11", "C05", "C06", "C07", "C12", "C13", "C02"]
 FILES = ["src/parser.rs", "src/element.rs", "src/element/identifier.rs", "src/element/macro_rule.rs", "src/necessity.rs", "src/options.rs", "src/main.rs", "src/args.rs"]
 
 def sh(cmd, cwd=None, timeout=3600):
@@ -155,14 +155,14 @@ def main():
                     rec["status"] = "survived_all_checks"
                     rec["checks"] = {}
                     for c in ORDER:
-                        rc3, o3 = sh(f"./check {c} quick 2>&1 | tail -4", cwd=VERIF, timeout=200)
+                        rc3, o3 = sh(f"./check {c} quick 2>&1 | grep -E -A1 '^(OK|VIOLATION|INCONCLUSIVE) ' | head -4", cwd=VERIF, timeout=200)
                         # exit code of the pipeline is tail's; read the verdict line instead
                         verdict = "OK" if "\nOK property=" in "\n" + o3 else ("VIOLATION" if "VIOLATION property=" in o3 else ("INCONCLUSIVE" if "INCONCLUSIVE" in o3 else "OTHER"))
                         rec["checks"][c] = verdict
                         if verdict == "VIOLATION":
                             rec["status"] = "caught"
                             rec["caught_by"] = c
-                            rec["detail"] = o3.strip().split("\n")[-1][:300]
+                            rec["detail"] = " ".join(o3.strip().split("\n")[:2])[:300]
                             break
                         if verdict in ("OTHER", "INCONCLUSIVE"):
                             rec.setdefault("notes", []).append(f"{c}: {o3.strip()[-300:]}")
